@@ -345,7 +345,7 @@ def _chunks(seq, k):
 
 
 def run(ctx):
-    phys = PHYS if ctx.tier != "quick" else [p for i, p in enumerate(PHYS) if i % 3 == 0]
+    phys = PHYS if ctx.tier != "quick" else [p for i, p in enumerate(PHYS) if (i + i // 18) % 3 == 0]  # every third point, the phase moving with each (zm, z0, wind) block so that every L and sigma_v occurs
     ints = [(zm, z0, ws, us, L, sv) for zm, z0, ws, us, L, sv in itertools.product((2.0, 10.0, 30.0), (1.0, 0.1), (3.0, 6.0), (1.0, 0.4), (-20.0, -500.0, 200.0, 30.0), (1.0, 0.5)) if z0 < zm / 2]
     if ctx.tier == "quick":
         ints = ints[::2]
@@ -354,6 +354,8 @@ def run(ctx):
         "mass: resolution ladder per physical point (non-trivial when the peak is resolved by >= 4 cells at 20 m); estimateZ0: 3 heights x 3 dtypes x 2 windows x 5 rotations; evaluations counts model calls"
     )
     ctx.run_cases(case_cells, _chunks(phys, 8), sub="cells+rotation", chunksize=1)
+    from vf import callerenv
+    callerenv.run(ctx, case_cells, _chunks(phys, 8)[:2])
     errorpaths.run_threaded(ctx, case_cells, _chunks(phys, 8)[:2], threads=(2, 3, 4, 6))
     ctx.run_cases(case_types, _chunks(ints, 8), sub="scalar-types", chunksize=1)
     ctx.run_cases(case_mass, [{"p": list(p), "tier": ctx.tier} for p in phys[:: (2 if ctx.tier == "quick" else 1)]], sub="captured-mass", chunksize=1)
